@@ -66,10 +66,9 @@ NttSmall(e) ==
 (***************************************************************************)
 (* BigNat (moduli up to 61 bits): pw[k+1] = psi^k, certified by a chain    *)
 (***************************************************************************)
-RECURSIVE ChainOk(_, _, _, _, _)
-ChainOk(pw, hints, q, root, k) ==       \* pw[k+1] * root = hints[k] * q + pw[k+2]
-  IF k + 1 >= Len(pw) THEN TRUE
-  ELSE DivModCert(BMul(pw[k+1], root), q, hints[k+1], pw[k+2]) /\ ChainOk(pw, hints, q, root, k+1)
+\* pw[k+1] * root = hints[k+1] * q + pw[k+2]   for k = 0 .. Len(pw) - 2
+ChainOk(pw, hints, q, root, k0) ==
+  \A k \in k0..(Len(pw) - 2) : DivModCert(BMul(pw[k+1], root), q, hints[k+1], pw[k+2])
 
 NttRoot(e) ==      \* x = <<q, root>>, e.pw (2N entries, pw[1] = 1), e.hints (2N-1), n = <<N>>
   LET q == e.x[1]  root == e.x[2]  n == e.n[1] IN
